@@ -89,6 +89,13 @@ theorem getStored_setStored (s : Site) (rr : RoomRow) (rid : Id) :
   · rename_i h; simp only [h, if_true] at this; exact this
   · rename_i h; simp only [h, if_false] at this; exact this
 
+@[simp] theorem noteInserted_stored (s : Site) (rr : RoomRow) : (s.noteInserted rr).stored = s.stored := rfl
+@[simp] theorem noteInserted_mem (s : Site) (rr : RoomRow) : (s.noteInserted rr).mem = s.mem := rfl
+@[simp] theorem noteInserted_dead (s : Site) (rr : RoomRow) : (s.noteInserted rr).dead = s.dead := rfl
+theorem getMem_noteInserted (s : Site) (rr : RoomRow) (rid : Id) : (s.noteInserted rr).getMem rid = s.getMem rid := rfl
+theorem getStored_noteInserted (s : Site) (rr : RoomRow) (rid : Id) :
+    (s.noteInserted rr).getStored rid = s.getStored rid := rfl
+
 @[simp] theorem setMem_stored (s : Site) (r : Room) : (s.setMem r).stored = s.stored := by
   unfold Site.setMem; split <;> rfl
 @[simp] theorem setStored_mem (s : Site) (rr : RoomRow) : (s.setStored rr).mem = s.mem := by
@@ -154,6 +161,9 @@ theorem getStored_of_mem {s : Site} (hn : (s.stored.map (·.rid)).Nodup) {rr : R
       · exact absurd (e ▸ rfl) hx
       · exact ih hn.2 e
 
+theorem siteInv_noteInserted {s : Site} (hi : SiteInv s) (rr : RoomRow) : SiteInv (s.noteInserted rr) :=
+  ⟨hi.storedNodup, hi.agree, hi.covered⟩
+
 theorem siteInv_empty : SiteInv Site.empty :=
   ⟨by simp [Site.empty],
    by intro rid r h; simp [Site.getMem, Site.empty] at h,
@@ -215,7 +225,7 @@ theorem siteInv_mutate {s s' : Site} (hi : SiteInv s) {caller : Key} {n : Nat} {
               obtain ⟨rr, hs, ha, hw⟩ := hi.agree _ _ hm
               exact ⟨r, rr, rfl, hs, ha, hw, (getMem_some hm).trans (getStored_some hs).symm⟩
         obtain ⟨ha, hw, hid⟩ := validate_agrees (n := n) hinv hv
-        exact siteInv_install hi ha hw hid
+        exact siteInv_noteInserted (siteInv_install hi ha hw hid) _
 
 /-- **import preserves the invariant**, whatever the candidate -/
 theorem siteInv_import {s s' : Site} (hi : SiteInv s) {df : Defects} {cand : RoomRow}
@@ -236,7 +246,7 @@ theorem siteInv_import {s s' : Site} (hi : SiteInv s) {df : Defects} {cand : Roo
           split at hp
           · cases hp
             obtain ⟨ha, hw, hid⟩ := parseRoom_agreesOrd (liftErr_ok hparse)
-            exact siteInv_install hi ha hw hid
+            exact siteInv_noteInserted (siteInv_install hi ha hw hid) _
           · cases hp
     · split at h
       · cases h
@@ -249,39 +259,40 @@ theorem siteInv_import {s s' : Site} (hi : SiteInv s) {df : Defects} {cand : Roo
           · rename_i room' hparse
             cases h
             obtain ⟨ha, hw, hid⟩ := parseRoom_agreesOrd (liftErr_ok hparse)
-            exact siteInv_install hi ha hw hid
+            exact siteInv_noteInserted (siteInv_install hi ha hw hid) _
 
 /-! ### restart -/
 
-theorem groupAgrees_sort {a : Auth} {nf : Bool} {g : GroupRow} (h : GroupAgrees a (sortGroup nf g)) :
-    GroupAgrees a g :=
-  ⟨h.id, h.users.trans ((readUsers_perm nf g.users).map _),
-   h.userAdmins.trans ((readUsers_perm nf g.userAdmins).map _),
-   h.rights.trans ((readRights_perm nf g.rights).map _)⟩
+theorem groupAgrees_sort {a : Auth} {nf : Bool} {t : TieOrder} {g : GroupRow}
+    (h : GroupAgrees a (sortGroup nf t g)) : GroupAgrees a g :=
+  ⟨h.id, h.users.trans ((readUsers_perm nf t g.users).map _),
+   h.userAdmins.trans ((readUsers_perm nf t g.userAdmins).map _),
+   h.rights.trans ((readRights_perm nf t g.rights).map _)⟩
 
-theorem forall2_sort {nf : Bool} {l₂ : List GroupRow} {l₁ : List Auth}
-    (h : Forall2 GroupAgrees l₁ (l₂.map (sortGroup nf))) : Forall2 GroupAgrees l₁ l₂ := by
+theorem forall2_sort {nf : Bool} {t : TieOrder} {l₂ : List GroupRow} {l₁ : List Auth}
+    (h : Forall2 GroupAgrees l₁ (l₂.map (sortGroup nf t))) : Forall2 GroupAgrees l₁ l₂ := by
   induction l₂ generalizing l₁ with
   | nil => cases h; exact Forall2.nil
   | cons g t ih =>
     cases h with
     | cons hab hrest => exact Forall2.cons (groupAgrees_sort hab) (ih hrest)
 
-/-- agreement with the rows as exported (sorted) is agreement with the rows as stored -/
-theorem agreesOrd_export {r : Room} {rr : RoomRow} {df : Defects} (h : AgreesOrd r (exportRoom df rr)) :
+/-- agreement with the rows as read (sorted) is agreement with the rows as stored -/
+theorem agreesOrd_read {r : Room} {rr : RoomRow} {nf : Bool} {t : TieOrder} (h : AgreesOrd r (readRoom nf t rr)) :
     AgreesOrd r rr :=
-  ⟨h.admins.trans ((readUsers_perm _ rr.admins).map _), forall2_sort h.groups⟩
+  ⟨h.admins.trans ((readUsers_perm _ _ rr.admins).map _), forall2_sort h.groups⟩
+
 
 theorem agreesOrd_gids_nodup {r : Room} {rr : RoomRow} (ha : AgreesOrd r rr) (hw : r.WF) :
     (rr.groups.map (·.gid)).Nodup := by
   rw [← forall2_ids ha.groups]; exact hw.ids
 
 /-- start-up loads room `rr` as `r`, and `r` agrees with the stored rows -/
-def Loads (df : Defects) (r : Room) (rr : RoomRow) : Prop :=
-  reloadRoom df rr = some (.ok r) ∧ AgreesOrd r rr ∧ r.WF ∧ r.id = rr.rid
+def Loads (df : Defects) (seq : List Nat) (r : Room) (rr : RoomRow) : Prop :=
+  reloadRoom df seq rr = some (.ok r) ∧ AgreesOrd r rr ∧ r.WF ∧ r.id = rr.rid
 
-theorem reloadAll_ok {df : Defects} {l : List RoomRow} (h : ∀ rr ∈ l, ∃ r, Loads df r rr) :
-    ∃ ms, reloadAll df l = .ok ms ∧ Forall2 (Loads df) ms l := by
+theorem reloadAll_ok {df : Defects} {seq : List Nat} {l : List RoomRow} (h : ∀ rr ∈ l, ∃ r, Loads df seq r rr) :
+    ∃ ms, reloadAll df seq l = .ok ms ∧ Forall2 (Loads df seq) ms l := by
   induction l with
   | nil => exact ⟨[], rfl, Forall2.nil⟩
   | cons rr t ih =>
@@ -290,9 +301,10 @@ theorem reloadAll_ok {df : Defects} {l : List RoomRow} (h : ∀ rr ∈ l, ∃ r,
     refine ⟨r :: ms, ?_, Forall2.cons hr f⟩
     simp only [reloadAll, hr.1, hms]
 
-theorem find_forall2 {df : Defects} {ms : List Room} {l : List RoomRow} (f : Forall2 (Loads df) ms l) (rid : Id) :
+theorem find_forall2 {df : Defects} {seq : List Nat} {ms : List Room} {l : List RoomRow}
+    (f : Forall2 (Loads df seq) ms l) (rid : Id) :
     (ms.find? (·.id = rid) = none ∧ l.find? (·.rid = rid) = none) ∨
-    ∃ r rr, ms.find? (·.id = rid) = some r ∧ l.find? (·.rid = rid) = some rr ∧ Loads df r rr := by
+    ∃ r rr, ms.find? (·.id = rid) = some r ∧ l.find? (·.rid = rid) = some rr ∧ Loads df seq r rr := by
   induction f with
   | nil => left; simp
   | @cons a b l1 l2 hab _ ih =>
@@ -315,7 +327,7 @@ theorem gidsNodup_of_inv {s : Site} (hi : SiteInv s) : ∀ rr ∈ s.stored, (rr.
 /-- **restart**, when every stored room loads into a room that agrees with its rows: the instance restarts,
     keeps the invariant, and every room it held is rebuilt from the same stored rows -/
 theorem restart_ok {df : Defects} {s : Site} (hi : SiteInv s) (hd : s.dead = false)
-    (hl : ∀ rr ∈ s.stored, ∃ r, Loads df r rr) :
+    (hl : ∀ rr ∈ s.stored, ∃ r, Loads df s.seq r rr) :
     ∃ s', s.restart df = .ok s' ∧ SiteInv s' ∧ s'.stored = s.stored ∧ s'.dead = false ∧
       ∀ rid r, s.getMem rid = some r → ∃ r' rr, s'.getMem rid = some r' ∧ s.getStored rid = some rr ∧
         AgreesOrd r rr ∧ r.WF ∧ AgreesOrd r' rr ∧ r'.WF := by
@@ -340,12 +352,12 @@ theorem restart_ok {df : Defects} {s : Site} (hi : SiteInv s) (hd : s.dead = fal
 
 /-- with ascending replay, normalised rights and every room loaded, every stored room with distinct group
     ids loads -/
-theorem loads_none {rr : RoomRow} (hn : (rr.groups.map (·.gid)).Nodup) : ∃ r, Loads Defects.none r rr := by
-  obtain ⟨r, hr⟩ := parseRoom_sorted false rr hn
+theorem loads_none {seq : List Nat} {rr : RoomRow} (hn : (rr.groups.map (·.gid)).Nodup) :
+    ∃ r, Loads Defects.none seq r rr := by
+  obtain ⟨r, hr⟩ := parseRoom_sorted false (.seq seq) rr hn
   obtain ⟨ha, hw, hid⟩ := parseRoom_agreesOrd hr
-  refine ⟨r, ?_, agreesOrd_export ha, hw, hid⟩
+  refine ⟨r, ?_, agreesOrd_read ha, hw, hid⟩
   simp only [reloadRoom, Defects.none, Bool.false_and, Bool.false_eq_true, if_false]
-  simp only [Defects.none] at hr
   rw [hr]
 
 theorem restart_none {s : Site} (hi : SiteInv s) (hd : s.dead = false) :
@@ -382,35 +394,31 @@ theorem userWF_of_one {l : List UserRow} (h : ∀ a ∈ l, ∀ b ∈ l, a.key = 
   obtain ⟨b0, hb0, rfl⟩ := List.mem_map.mp hb
   exact h a0 ha0 b0 hb0
 
-theorem loads_guarded {rr : RoomRow} (hn : (rr.groups.map (·.gid)).Nodup) (hg : ReloadGuard rr) :
-    ∃ r, Loads Defects.asImplemented r rr := by
-  have hone : ∀ (nf : Bool) (l : List UserRow), (∀ a ∈ l, ∀ b ∈ l, a.key = b.key → a.date = b.date) →
-      UserWF ((readUsers nf l).map UserRow.toUser) := by
-    intro nf l h
+theorem loads_guarded {seq : List Nat} {rr : RoomRow} (hn : (rr.groups.map (·.gid)).Nodup) (hg : ReloadGuard rr) :
+    ∃ r, Loads Defects.asImplemented seq r rr := by
+  have hone : ∀ (nf : Bool) (rev : TieOrder) (l : List UserRow), (∀ a ∈ l, ∀ b ∈ l, a.key = b.key → a.date = b.date) →
+      UserWF ((readUsers nf rev l).map UserRow.toUser) := by
+    intro nf rev l h
     apply userWF_of_one
     intro a ha b hb
-    exact h a ((readUsers_perm nf l).mem_iff.mp ha) b ((readUsers_perm nf l).mem_iff.mp hb)
-  have hparse : ∃ r, parseRoom true (exportRoom Defects.asImplemented rr) = .ok r := by
+    exact h a ((readUsers_perm nf rev l).mem_iff.mp ha) b ((readUsers_perm nf rev l).mem_iff.mp hb)
+  have hparse : ∃ r, parseRoom true (readRoom true (.seq seq) rr) = .ok r := by
     apply parseRoom_of_wf
-    · have : (exportRoom Defects.asImplemented rr).groups.map (·.gid) = rr.groups.map (·.gid) := by
-        simp only [exportRoom, List.map_map]
-        apply List.map_congr_left
-        intro g _; rfl
-      rw [this]; exact hn
-    · exact hone Defects.asImplemented.newestFirstReplay _ hg.adminsOne
+    · rw [readRoom_gids]; exact hn
+    · exact hone true (.seq seq) _ hg.adminsOne
     · intro g hgm
-      simp only [exportRoom, List.mem_map] at hgm
+      simp only [readRoom, List.mem_map] at hgm
       obtain ⟨g0, hg0, rfl⟩ := hgm
-      refine ⟨?_, hone Defects.asImplemented.newestFirstReplay _ (hg.usersOne g0 hg0),
-        hone Defects.asImplemented.newestFirstReplay _ (hg.userAdminsOne g0 hg0)⟩
+      refine ⟨?_, hone true (.seq seq) _ (hg.usersOne g0 hg0),
+        hone true (.seq seq) _ (hg.userAdminsOne g0 hg0)⟩
       apply gwf_of_singleDate
       intro a ha b hb
       obtain ⟨a0, ha0, rfl⟩ := List.mem_map.mp ha
       obtain ⟨b0, hb0, rfl⟩ := List.mem_map.mp hb
       simp only [toRight_entity, toRight_validFrom]
       exact hg.rightsOne g0 hg0 a0
-        ((readRights_perm Defects.asImplemented.newestFirstReplay g0.rights).mem_iff.mp ha0) b0
-        ((readRights_perm Defects.asImplemented.newestFirstReplay g0.rights).mem_iff.mp hb0)
+        ((readRights_perm true (.seq seq) g0.rights).mem_iff.mp ha0) b0
+        ((readRights_perm true (.seq seq) g0.rights).mem_iff.mp hb0)
   obtain ⟨r, hr⟩ := hparse
   obtain ⟨hid, hadm, f, hw⟩ := parseRoom_ok hr
   refine ⟨r, ?_, ?_, hw, hid⟩
@@ -423,17 +431,17 @@ theorem loads_guarded {rr : RoomRow} (hn : (rr.groups.map (·.gid)).Nodup) (hg :
       | nil => exact absurd h hg.hasGroup
       | cons _ _ => rfl
     simp only [reloadRoom, h1, h2, Bool.or_self, Bool.and_false, Bool.false_eq_true, if_false]
-    simp only [Defects.asImplemented] at hr ⊢
+    simp only [Defects.asImplemented]
     rw [hr]
-  · apply agreesOrd_export (df := Defects.asImplemented)
+  · apply agreesOrd_read (nf := true) (t := .seq seq)
     refine ⟨by rw [hadm], ?_⟩
-    have hnorm : ∀ g ∈ (exportRoom Defects.asImplemented rr).groups, ∀ a ∈ g.rights,
+    have hnorm : ∀ g ∈ (readRoom true (.seq seq) rr).groups, ∀ a ∈ g.rights,
         a.mutAll = true → a.mutSelf = true := by
       intro g hgm a ha
-      simp only [exportRoom, List.mem_map] at hgm
+      simp only [readRoom, List.mem_map] at hgm
       obtain ⟨g0, hg0, rfl⟩ := hgm
-      exact hg.rightsNormal g0 hg0 a ((readRights_perm Defects.asImplemented.newestFirstReplay g0.rights).mem_iff.mp ha)
-    generalize (exportRoom Defects.asImplemented rr).groups = gs at f hnorm
+      exact hg.rightsNormal g0 hg0 a ((readRights_perm true (.seq seq) g0.rights).mem_iff.mp ha)
+    generalize (readRoom true (.seq seq) rr).groups = gs at f hnorm
     generalize r.auths = as at f
     induction f with
     | nil => exact Forall2.nil
